@@ -18,6 +18,41 @@ CLAIMED = {
         "harness/C17.py. K3 (list order handed to the partitioner) is a finite enumeration.",
         "§4 C17",
     ),
+    "C09": (
+        "symbolic execution of the real pure-Python varint and CRC-32C code on z3 bit-vectors: round-trip and "
+        "layout for all int64 values, crc_update step vs the bitwise CRC-32C definition for all 2^40 (state, byte) pairs",
+        "Bounded symbolic verification of the pure-Python codec primitives (varint encode/decode/size for every "
+        "int64; crc_update for every 32-bit state and byte, plus the fold structure that lifts it to any length). "
+        "The batch builders/readers and the compiled extension are not yet covered by this revision.",
+        "Trusted: symx, z3, struct/array shims. Compiled extension (_crecords) cannot be encoded by this technique: "
+        "no claim about it.",
+        "§4 C09",
+    ),
+    "C11": (
+        "symbolic execution of the real protocol primitives (fixed ints, unsigned/zig-zag varints, compact forms, "
+        "tagged fields) on symbolic values through struct/BytesIO shims; Request.prepare run on symbolic (min,max) "
+        "broker ranges for all 32 request builders; finite walk of request/response pairing",
+        "Bounded symbolic verification: every primitive round-trips and has the protocol-guide layout for all "
+        "in-range values (strings/bytes/arrays at boundary lengths from a menu); version negotiation picks the "
+        "highest client version inside [min,max] for every pair 0<=min<=max<=32 and every builder, refuses "
+        "otherwise; each request struct is paired with a response of identical key/schema and the right header form.",
+        "Trusted: symx, z3, struct/BytesIO shims (format strings are read from the code). Conformance of the 100+ "
+        "schema tables to Kafka's message definitions and the per-version builder arguments (K3) are not covered yet.",
+        "§4 C11",
+    ),
+    "C12": (
+        "symbolic execution of the real AIOKafkaConnection._handle_frame/close from a symbolic in-flight queue "
+        "(correlation ids as bit-vectors), _next_correlation_id over all 2^31 ids, and exhaustive enumeration of "
+        "stream cuts/faults/waiter events against the real reader task on a virtual-time loop",
+        "Bounded symbolic verification + exhaustive fault enumeration: for 1..3 in-flight requests with arbitrary "
+        "distinct correlation ids and an arbitrary received id, only the head waiter gets the matching reply and a "
+        "mismatch closes the connection and fails every waiter; the real _read task is driven with every cut "
+        "position, EOF position, wrong/duplicate/unsolicited id, truncated body, bad size, cancelled or timed-out "
+        "waiters for 2 pipelined requests (quick).",
+        "Trusted: symx, z3, asyncio.StreamReader (stdlib), the virtual-time loop, struct/BytesIO shims. TCP transport "
+        "is an in-memory stream. Known finding D7 (FindCoordinator v0 quirk) is listed in known_findings.json.",
+        "§4 C12",
+    ),
 }
 
 NOT_YET = "harness not built yet in this revision (planned in DESIGN.md §4); no claim is made"
